@@ -323,10 +323,16 @@ func (c ColLowCardinality[T]) Rows() int {
 func (c *ColLowCardinality[T]) Prepare() error {
 	// Allocate keys slice.
 	c.keys = append(c.keys[:0], make([]int, len(c.Values))...)
+	// Rebuild the dictionary from Values on every call: the column may have
+	// been prepared or decoded into before, and keys must index the
+	// dictionary that is about to be encoded.
 	if c.kv == nil {
 		c.kv = map[T]int{}
-		c.index.Reset()
 	}
+	for k := range c.kv {
+		delete(c.kv, k)
+	}
+	c.index.Reset()
 
 	// Fill keys with value indexes.
 	var last int
